@@ -51,7 +51,7 @@ def classify_rc(rc):
 
 def crash_signature(err):
     for l in err.splitlines():
-        if 'ERROR: AddressSanitizer' in l or 'runtime error:' in l or 'Assertion' in l or 'terminate called' in l:
+        if 'ERROR: AddressSanitizer' in l or 'ThreadSanitizer' in l or 'runtime error:' in l or 'Assertion' in l or 'terminate called' in l:
             return l.strip()[:300]
     tail = [l for l in err.splitlines() if l.strip()]
     return tail[-1][:300] if tail else 'process died without message'
@@ -151,8 +151,8 @@ def run_jobs(prop, jobs, seed, crash_is_violation, crash_class_codes=None, max_r
         exe = exes[u.name]
         out_all = []
         for attempt in range(max_retries + 1):
-            s = D.derive_seed(seed, prop, u.name, attempt)
-            tag = '%s_%d' % (u.name, attempt)
+            s = D.derive_seed(seed, prop, u.name, job.get('label', ''), attempt)
+            tag = '%s%s_%d' % (u.name, job.get('label', ''), attempt)
             stats, crash, rout = work / (tag + '.json'), work / (tag + '.crash'), work / (tag + '.tape')
             if job.get('enum'):
                 cmd = [exe, '--prop', prop, '--seed', s, '--stats', stats, '--crash', crash, '--replay-out', rout] + list(job.get('extra_args', []))
@@ -166,6 +166,7 @@ def run_jobs(prop, jobs, seed, crash_is_violation, crash_class_codes=None, max_r
             if stats.exists():
                 try:
                     rec['stats'] = json.loads(stats.read_text())
+                    rec['stats']['label'] = job.get('label', '')
                     ex = Path(str(stats) + '.extra')
                     if ex.exists():
                         rec['stats']['extra'] = json.loads(ex.read_text())
